@@ -80,6 +80,10 @@ fn main() {
             props::lab8();
             return;
         }
+        "lab9" => {
+            props::lab9();
+            return;
+        }
         "lab5" => {
             props::lab5();
             return;
